@@ -76,7 +76,7 @@ non-trivial = pause inside the body and entitled bytes non-empty";
     }
 
     fn cases_per_worker(tier: Tier) -> u32 {
-        tier.pick(6000, 30_000)
+        tier.pick(6000, 150_000)
     }
 
     fn strategy(tier: Tier) -> BoxedStrategy<Case> {
